@@ -1,5 +1,6 @@
 from __future__ import annotations
 
+import math
 from typing import TYPE_CHECKING
 
 from redis.asyncio.client import Redis
@@ -35,7 +36,13 @@ class RedisBucketBroker(BucketBrokerT):
         await self.conn.set(
             id_,
             payload.encode(),
-            exat=payload.timestamp + payload.ttl if payload.ttl is not None else None,
+            # milliseconds, rounded up: whole seconds (EXAT) are rounded down by the client,
+            # which makes a bucket expire up to a second before its time-to-live has passed
+            pxat=(
+                math.ceil((payload.timestamp + payload.ttl).timestamp() * 1000)
+                if payload.ttl is not None
+                else None
+            ),
         )
 
     async def delete_bucket(self, id_: str) -> None:
